@@ -57,6 +57,14 @@ WNew == /\ IsA("obs.w_new")
              THEN Adv /\ KeepPre /\ E0 /\ UNCHANGED vars        \* the initial workers, started by pre_start
              ELSE Buffer(Fx("spawn", Ev.wid, Ev.inc, ""))
 Discard == IsA("obs.discard") /\ Buffer(Fx("disc", Ev.id, 0, Ev.reason))
+\* the retry hook of a RetriableMessage fired (once per re-submission).  Either a worker that is being torn down dropped
+\* the job, or a factory handler did (an effect of that handler), or it sat in the mailbox / state of a factory that has ended
+\* (the hook fires, the re-submission fails)
+Holder(j) == {a \in Incs : act[a].st \in {"alive", "closing"} /\ (act[a].run = j \/ \E x \in 1 .. Len(act[a].mb) : act[a].mb[x] = j)}
+Retry == /\ IsA("obs.retry") /\ Ev.id \in JobIds /\ jb[Ev.id].sub
+         /\ IF Holder(Ev.id) # {} THEN Adv /\ KeepPre /\ E0 /\ \E a \in Holder(Ev.id) : WorkerRetry(a, Ev.id, FactoryUp)
+            ELSE IF f.up # "run" THEN jb[Ev.id].rleft > 0 /\ Adv /\ KeepPre /\ E0 /\ UNCHANGED vars
+            ELSE Buffer(Fx("retry", Ev.id, 0, ""))
 Cast == /\ IsA("factory.cast")
         /\ IF Strict THEN Buffer(Fx("cast", Ev.inc, Ev.id, IF Ev.d = 1 THEN "ok" ELSE "fail"))
                      ELSE Adv /\ KeepPre /\ E0 /\ UNCHANGED vars
@@ -68,7 +76,7 @@ Hook == /\ IsA("obs.hook")
 
 -----------------------------------------------------------------------------
 (* factory steps *)
-Visible(fx) == SelectSeq(fx, LAMBDA e : e.e \in (IF Strict THEN {"cast", "disc", "spawn", "hook"} ELSE {"disc", "spawn", "hook"}))
+Visible(fx) == SelectSeq(fx, LAMBDA e : e.e \in (IF Strict THEN {"cast", "disc", "spawn", "hook", "retry"} ELSE {"disc", "spawn", "hook", "retry"}))
 Clamp(v) == IF v >= LbBig THEN LbBig ELSE v
 PendOk(wr, r) == \A k \in Keys : LET m == {p \in Range(r.pend) : p[1] = k} IN
                    IF m = {} THEN wr.pend[k] = 0 ELSE \E p \in m : p[2] = wr.pend[k]
@@ -90,10 +98,10 @@ StepStrict ==
   /\ LET k == Ev.kind IN
      IF k \in {"sup_term", "sup_fail"} THEN
           IF fsq # <<>> /\ Head(fsq).inc = Ev.a1
-            THEN \E o \in Ords(f), rt \in BOOLEAN : LET S == HandleSupX(f, Ev.a1, o, rt) IN Fits(S) /\ Done(f, S, "sup") /\ fsq' = Tail(fsq) /\ UNCHANGED fmq
+            THEN \E o \in Ords(f), rt \in BOOLEAN : LET S == HandleSupX(f, Ev.a1, o, rt) IN Fits(S) /\ Done(f, S, "sup") /\ fsq' = Tail(fsq) /\ fmq' = fmq \o Posts(S)
             ELSE FALSE
      ELSE IF k = "post_stop" THEN
-          /\ pre = SelectSeq(DiscAllShutdown(f).fx, LAMBDA e : e.e = "disc") /\ SnapOk(Clean(DiscAllShutdown(f)), Ev.snap)
+          /\ pre = SelectSeq(DiscAllShutdown(f).fx, LAMBDA e : e.e \in {"disc", "retry"}) /\ SnapOk(Clean(DiscAllShutdown(f)), Ev.snap)
           /\ FactoryStopBegin /\ pre' = <<>> /\ E0
      ELSE IF k \in {"sup_started", "sup_other"} THEN Fits(f) /\ Done(f, f, "noop") /\ UNCHANGED <<fmq, fsq>>
      ELSE IF k \in Free THEN LET S == Handle(f, Msg(k, 0, 0, "", 0), IdOrd) IN Fits(S) /\ Done(f, S, k) /\ UNCHANGED <<fmq, fsq>>
@@ -104,8 +112,8 @@ StepStrict ==
                [] k = "update" -> HeadIs(k, Ev.a1, Ev.a2, Ev.s1)
                [] k \in {"q_depth", "q_active", "q_cap"} -> HeadIs(k, 0, 0, "")
                [] OTHER -> FALSE
-          /\ \E o \in Ords(f) : LET S == Handle(f, Head(fmq), o) IN Fits(S) /\ Done(f, S, k)
-          /\ fmq' = Tail(fmq) /\ UNCHANGED fsq
+          /\ \E o \in Ords(f) : LET S == Handle(f, Head(fmq), o) IN Fits(S) /\ Done(f, S, k) /\ fmq' = Tail(fmq) \o Posts(S)
+          /\ UNCHANGED fsq
 \* lenient: the same handler steps, taken silently
 SilentStep ==
   /\ ~Strict /\ Live /\ l' = l /\ f.up = "run" /\ ~f.stopreq
@@ -113,13 +121,13 @@ SilentStep ==
         /\ \E o \in Ords(f), rt \in BOOLEAN : LET S == HandleSupX(f, Head(fsq).inc, o, rt) IN Fits(S) /\ Done(f, S, "sup")
         /\ fsq' = Tail(fsq) /\ UNCHANGED fmq
      \/ /\ fmq # <<>>
-        /\ \E o \in Ords(f) : LET S == Handle(f, Head(fmq), o) IN Fits(S) /\ Done(f, S, Head(fmq).m)
-        /\ fmq' = Tail(fmq) /\ UNCHANGED fsq
+        /\ \E o \in Ords(f) : LET S == Handle(f, Head(fmq), o) IN Fits(S) /\ Done(f, S, Head(fmq).m) /\ fmq' = Tail(fmq) \o Posts(S)
+        /\ UNCHANGED fsq
      \/ /\ FQ /\ \E i \in 1 .. Len(f.q) : Expired(f.q[i])
         /\ LET S == Handle(f, Msg("calc", 0, 0, "", 0), IdOrd) IN Fits(S) /\ Done(f, S, "calc")
         /\ UNCHANGED <<fmq, fsq>>
 SilentStop == /\ ~Strict /\ Live /\ l' = l /\ f.stopreq
-              /\ pre = SelectSeq(DiscAllShutdown(f).fx, LAMBDA e : e.e = "disc")
+              /\ pre = SelectSeq(DiscAllShutdown(f).fx, LAMBDA e : e.e \in {"disc", "retry"})
               /\ FactoryStopBegin /\ pre' = <<>> /\ E0
 SkipStep == ~Strict /\ IsA("factory.step") /\ Adv /\ KeepPre /\ E0 /\ UNCHANGED vars
 
@@ -128,10 +136,11 @@ SkipStep == ~Strict /\ IsA("factory.step") /\ Adv /\ KeepPre /\ E0 /\ UNCHANGED 
 Sent == Ev.d = 1
 TSubmit == /\ IsA("obs.submit") /\ Adv /\ KeepPre /\ E0
            /\ Ev.id \in JobIds /\ ~jb[Ev.id].sub /\ (~Sent => (f.stopreq \/ f.up # "run"))
-           /\ jb' = [jb EXCEPT ![Ev.id] = [NoJob EXCEPT !.sub = TRUE, !.key = Ev.key, !.ttl = Ev.ttl, !.port = Ev.port = 1, !.prio = Ev.prio,
-                                                        !.nd = Ev.nd = 1, !.born = now, !.undeliv = ~Sent]]
+           /\ jb' = [jb EXCEPT ![Ev.id] = [NoJob EXCEPT !.sub = TRUE, !.key = Ev.key, !.ttl = Ev.ttl, !.port = Ev.port = 1, !.prio = Ev.prio, !.rleft = Ev.retries, !.r0 = Ev.retries,
+                                                        !.nd = Ev.nd = 1, !.born = now, !.undeliv = ~Sent, !.seq = mon.nseq + 1]]
+           /\ mon' = [mon EXCEPT !.nseq = @ + 1]
            /\ fmq' = IF Sent THEN Append(fmq, Msg("dispatch", Ev.id, Ev.key, "", 0)) ELSE fmq
-           /\ UNCHANGED <<cfg, f, fsq, act, now, mon>>
+           /\ UNCHANGED <<cfg, f, fsq, act, now>>
 TPost(m) == /\ Adv /\ KeepPre /\ E0 /\ fmq' = (IF Sent THEN Append(fmq, m) ELSE fmq) /\ UNCHANGED <<cfg, f, fsq, act, jb, now, mon>>
 Client == \/ IsA("obs.adjust") /\ TPost(Msg("adjust", Ev.n, 0, "", 0))
           \/ IsA("obs.drain") /\ TPost(Msg("drain", 0, 0, "", 0))
@@ -141,6 +150,10 @@ Client == \/ IsA("obs.adjust") /\ TPost(Msg("adjust", Ev.n, 0, "", 0))
              /\ IF Ev.d = 1 THEN /\ mon.ans # <<>> /\ Head(mon.ans) = Ev.v /\ mon' = [mon EXCEPT !.ans = Tail(@)]
                                   /\ UNCHANGED <<cfg, f, fmq, fsq, act, jb, now>>
                              ELSE UNCHANGED vars
+          \* call_job: an answer can only come from the worker that completed this job; no answer = the job (with its port) was dropped
+          \/ /\ IsA("obs.call_ret") /\ Adv /\ KeepPre /\ E0 /\ UNCHANGED vars
+             /\ Ev.id \in JobIds /\ jb[Ev.id].sub
+             /\ IF Ev.d = 1 THEN jb[Ev.id].h = 1 /\ Ev.v = Ev.id ELSE jb[Ev.id].h = 0
           \/ /\ IsA("obs.reply") /\ Adv /\ KeepPre /\ E0 /\ UNCHANGED vars
              /\ Ev.id \in JobIds /\ jb[Ev.id].port
              /\ IF Ev.res = "accepted" THEN jb[Ev.id].acc ELSE IF Ev.res = "returned" THEN jb[Ev.id].ret ELSE ~Replied(jb[Ev.id])
@@ -169,17 +182,17 @@ End == /\ IsA("obs.end") /\ Adv /\ KeepPre /\ E0 /\ UNCHANGED vars
        /\ (~Strict => (fmq = <<>> \/ f.up # "run" \/ \A i \in 1 .. Len(fmq) : FALSE))
        /\ (mon.dev # {} => PrintT(<<"DEVIATION", mon.dev \cup wit>>))
 
-TStep == Reset \/ Cfg \/ Time \/ WNew \/ Discard \/ Cast \/ Hook \/ StepStrict \/ SilentStep \/ SilentStop \/ SkipStep \/ TSubmit \/ Client \/ Worker \/ End
+TStep == Reset \/ Cfg \/ Time \/ WNew \/ Discard \/ Retry \/ Cast \/ Hook \/ StepStrict \/ SilentStep \/ SilentStop \/ SkipStep \/ TSubmit \/ Client \/ Worker \/ End
 \* remember which property-level readings were broken at some state of the run
 \* ... and which invariants of Factory (read with the recorded deviations) failed at some state: such a run
 \* cannot pass its obs.end line, so it is rejected like any other unexplained run
 Violated == {n \in {"OneFate", "PortOk", "LostOnePerDeath", "NoFactoryPanic", "KeyExclusive", "KeyFifo", "OneAtATime", "RoundRobinCovers",
-                    "QueuerNoIdle", "ViewExact", "QueueBound", "HookOrder", "PoolConverges", "DrainComplete", "DrainRefuses"} :
+                    "QueuerNoIdle", "ViewExact", "QueueBound", "HookOrder", "PoolConverges", "DrainComplete", "DrainRefuses", "RetryBudget"} :
                ~(CASE n = "OneFate" -> OneFate [] n = "PortOk" -> PortOk [] n = "LostOnePerDeath" -> LostOnePerDeath
                    [] n = "NoFactoryPanic" -> NoFactoryPanic [] n = "KeyExclusive" -> KeyExclusive [] n = "KeyFifo" -> KeyFifo
                    [] n = "OneAtATime" -> OneAtATime [] n = "RoundRobinCovers" -> RoundRobinCovers [] n = "QueuerNoIdle" -> QueuerNoIdle
                    [] n = "ViewExact" -> ViewExact [] n = "QueueBound" -> QueueBound [] n = "HookOrder" -> HookOrder
-                   [] n = "PoolConverges" -> PoolConverges [] n = "DrainComplete" -> DrainComplete [] OTHER -> DrainRefuses)}
+                   [] n = "RetryBudget" -> RetryBudget [] n = "PoolConverges" -> PoolConverges [] n = "DrainComplete" -> DrainComplete [] OTHER -> DrainRefuses)}
 TNext == /\ TStep
          /\ wit' = (IF IsA("reset") THEN {} ELSE wit \cup Broken')
          /\ bad' = (IF IsA("reset") THEN {} ELSE bad \cup Violated')
